@@ -318,6 +318,14 @@ def check_c05(ctx):
                         'group %s: identities %r are held (%s) and also in '
                         'the free set' % (gname, both,
                                           [held[i] for i in both]))
+            holders = {app.identity for app in groups[gname]
+                       if app.identity is not None}
+            lost = sorted(i for i in range(count)
+                          if i not in group.available and i not in holders)
+            if lost:
+                return ('C05:identity-lost',
+                        'group %s count %s: identities %r are neither held '
+                        'nor free' % (gname, count, lost))
             bad = sorted(i for i in group.available if i >= count or i < 0)
             if bad:
                 return ('C05:free-identity-out-of-range',
